@@ -9,4 +9,8 @@ let () =
   | [| _; "c12" |] -> Drv_c12.run stdin stdout
   | [| _; "c11" |] -> Drv_c11.run stdin stdout
   | [| _; "c13" |] -> Drv_c13.run stdin stdout
+  | [| _; "ledger" |] -> Drv_ledger.run stdin stdout
+  | [| _; "c14" |] -> Drv_c14.run stdin stdout
+  | [| _; "c05" |] -> Drv_c05.run stdin stdout
+  | [| _; "c18" |] -> Drv_c18.run stdin stdout
   | _ -> prerr_endline "usage: driver <model>  (script on stdin)"; exit 2
